@@ -103,6 +103,11 @@ def make_options(rng, sysd, workdir, res, allow=("plain", "c_full", "c_prefix", 
             kw["build_res"] = [drop]
             sup = [g for g in groups if g["resname"] != drop]
             info["build_res"] = drop
+            if rng.random() < 0.35:
+                # the structure file is complete (the usual situation: an existing structure in which one kind of residue
+                # is to be built again); the residues named by -res are in the file and are passed over
+                info["complete_file"] = True
+                bump(res, "complete_structure_with_residues_named_for_rebuilding")
             if sup and rng.random() < 0.3:
                 # growth of one molecule is told to start at a residue whose coordinates are supplied
                 # preferably in a molecule whose first residue is among those to be rebuilt
@@ -142,21 +147,23 @@ def make_options(rng, sysd, workdir, res, allow=("plain", "c_full", "c_prefix", 
                     rows.append({"resid": g["resid"], "resname": T.shown(sysd, g["resname"]), "name": r["name"], "xyz": r["xyz"]})
             T.write_gro(os.path.join(workdir, "in.gro"), rows, base["box"])
             kw["coordpath"] = Path(workdir) / "in.gro"
+        written = groups if info.get("complete_file") else sup
         if mode in ("mc", "mc_res", "c_mc"):
             rows = []
-            for g in sup:
+            for g in written:
                 c = np.mean([r["xyz"] for r in g["rows"]], axis=0)
                 c = tuple(round(float(x), 3) for x in c)
                 rows.append({"resid": g["resid"], "resname": g["resname"], "name": "CG", "xyz": c})
-                info["centres"].append((g, c))
+                if any(g is g_ for g_ in sup):
+                    info["centres"].append((g, c))
             T.write_gro(os.path.join(workdir, "in_mc.gro"), rows, base["box"])
             kw["coordpath_meta"] = Path(workdir) / "in_mc.gro"
         else:
             rows = []
-            for gi, g in enumerate(sup):
+            for gi, g in enumerate(written):
                 for r in g["rows"]:
                     rows.append({"resid": g["resid"], "resname": T.shown(sysd, g["resname"]), "name": r["name"], "xyz": r["xyz"]})
-                if gi + 1 == len(sup) or sup[gi + 1]["mol"] != g["mol"]:
+                if gi + 1 == len(written) or written[gi + 1]["mol"] != g["mol"]:
                     rows[-1]["ter"] = True
             if rng.random() < 0.3 and 0 < len(rows) < 9999:
                 # the same structure as a PDB file, one TER record after every molecule
